@@ -195,6 +195,11 @@ impl Vm {
   pub(super) fn queue_blocked_fiber(&mut self, mut waiter: Ref<ChannelWaiter>) {
     match waiter.get_waiter_mut::<Ref<Fiber>>() {
       Some(fiber) => {
+        // only a parked fiber can be resumed and it can sit in the run queue only once
+        if *fiber == self.fiber || !fiber.is_parked() || self.fiber_queue.contains(fiber) {
+          return;
+        }
+
         fiber.unblock();
         self.fiber_queue.push_back(*fiber)
       },
